@@ -23,7 +23,7 @@ def bf_cfg(rng):
 
 class C03(Prop):
     id = 'C03'
-    rule_added = '20% of the cases are written as modular specifications (named sub-specifications referenced from several future depths). 12% under an interface-aware semantics (formulas outside the D-past-over-future precondition).'
+    rule_added = '20% of the cases are written as modular specifications (named sub-specifications referenced from several future depths). 12% under an interface-aware semantics (formulas outside the D-past-over-future precondition). 12% under a sampling period {500 ms, 250 ms, 2 s, 4 s}; 10% a one-step delay above a look-ahead operand next to a sibling with look-ahead; every update is compared, also after one the open finding explains.'
     rule = ('random bounded-future STL formulas (bounded eventually/always/until/unless, next/s_next, mixed with '
             'all past operators, Boolean, arithmetic; horizon h<=12; 15% future-free) x traces of h+1..h+14 samples: '
             'parse(); pastify(); update #i for every i>=h is compared with evaluate() of a fresh *un-pastified* offline '
